@@ -128,6 +128,9 @@ public:
   unsigned long n_malloc = 0, n_free = 0, n_lookup = 0, n_internal_lookup = 0;
   T_PointerType last_freed = 0;
 
+  // test seam: backend life-cycle events ("created" after the region exists, "destroying" before
+  // it is released), used by the cooperative scheduler of the thread driver
+  static inline void (*event_hook)(const char* what, Self* self) = nullptr;
   // test knob: make the next create fail
   static inline bool fail_next_create = false;
   // test knob: number of callback entry points new instances offer (<= NSlots)
@@ -247,11 +250,17 @@ protected:
         i++;
       }
     }
+    if (event_hook != nullptr) {
+      event_hook("created", this);
+    }
     return true;
   }
 
   inline void impl_destroy_sandbox()
   {
+    if (event_hook != nullptr) {
+      event_hook("destroying", this);
+    }
     if (map_addr != nullptr) {
       if (defer_unmap) {
         mprotect(map_addr, map_len, PROT_NONE);
